@@ -4,6 +4,118 @@
 import HapModel.Race
 namespace Hap.Race
 
+/-! ## 0. What `_send_events` and a controller write leave alone -/
+
+@[simp] theorem sendEvents_value (s : Cfg) (c : Conn) : (sendEvents s c).value = s.value := by
+  unfold sendEvents; split <;> (try split) <;> rfl
+
+@[simp] theorem sendEvents_cacheV (s : Cfg) (c : Conn) : (sendEvents s c).cacheV = s.cacheV := by
+  unfold sendEvents; split <;> (try split) <;> rfl
+
+@[simp] theorem sendEvents_cache (s : Cfg) (c : Conn) : (sendEvents s c).cache = s.cache := by
+  unfold sendEvents; split <;> (try split) <;> rfl
+
+@[simp] theorem sendEvents_topicKey (s : Cfg) (c : Conn) : (sendEvents s c).topicKey = s.topicKey := by
+  unfold sendEvents; split <;> (try split) <;> rfl
+
+@[simp] theorem sendEvents_queue (s : Cfg) (c : Conn) : (sendEvents s c).queue = s.queue := by
+  unfold sendEvents; split <;> (try split) <;> rfl
+
+@[simp] theorem sendEvents_enq (s : Cfg) (c : Conn) : (sendEvents s c).enq = s.enq := by
+  unfold sendEvents; split <;> (try split) <;> rfl
+
+@[simp] theorem sendEvents_subs (s : Cfg) (c : Conn) : (sendEvents s c).subs = s.subs := by
+  unfold sendEvents; split <;> (try split) <;> rfl
+
+@[simp] theorem sendEvents_results (s : Cfg) (c : Conn) : (sendEvents s c).results = s.results := by
+  unfold sendEvents; split <;> (try split) <;> rfl
+
+@[simp] theorem sendEvents_lpc (s : Cfg) (c : Conn) : (sendEvents s c).lpc = s.lpc := by
+  unfold sendEvents; split <;> (try split) <;> rfl
+
+@[simp] theorem sendEvents_lops (s : Cfg) (c : Conn) : (sendEvents s c).lops = s.lops := by
+  unfold sendEvents; split <;> (try split) <;> rfl
+
+@[simp] theorem sendEvents_wpc (s : Cfg) (c : Conn) : (sendEvents s c).wpc = s.wpc := by
+  unfold sendEvents; split <;> (try split) <;> rfl
+
+@[simp] theorem sendEvents_wups (s : Cfg) (c : Conn) : (sendEvents s c).wups = s.wups := by
+  unfold sendEvents; split <;> (try split) <;> rfl
+
+@[simp] theorem ctrlWrite_topicKey (s : Cfg) (w : Conn) (v : Obj) : (ctrlWrite s w v).topicKey = s.topicKey := rfl
+
+@[simp] theorem ctrlWrite_queue (s : Cfg) (w : Conn) (v : Obj) : (ctrlWrite s w v).queue = s.queue := rfl
+
+@[simp] theorem ctrlWrite_enq (s : Cfg) (w : Conn) (v : Obj) : (ctrlWrite s w v).enq = s.enq := rfl
+
+@[simp] theorem ctrlWrite_subs (s : Cfg) (w : Conn) (v : Obj) : (ctrlWrite s w v).subs = s.subs := rfl
+
+@[simp] theorem ctrlWrite_delivered (s : Cfg) (w : Conn) (v : Obj) : (ctrlWrite s w v).delivered = s.delivered := rfl
+
+@[simp] theorem ctrlWrite_results (s : Cfg) (w : Conn) (v : Obj) : (ctrlWrite s w v).results = s.results := rfl
+
+@[simp] theorem ctrlWrite_lpc (s : Cfg) (w : Conn) (v : Obj) : (ctrlWrite s w v).lpc = s.lpc := rfl
+
+@[simp] theorem ctrlWrite_lops (s : Cfg) (w : Conn) (v : Obj) : (ctrlWrite s w v).lops = s.lops := rfl
+
+@[simp] theorem ctrlWrite_wpc (s : Cfg) (w : Conn) (v : Obj) : (ctrlWrite s w v).wpc = s.wpc := rfl
+
+@[simp] theorem ctrlWrite_wups (s : Cfg) (w : Conn) (v : Obj) : (ctrlWrite s w v).wups = s.wups := rfl
+
+@[simp] theorem ctrlWrite_value (s : Cfg) (w : Conn) (v : Obj) : (ctrlWrite s w v).value = v := rfl
+@[simp] theorem ctrlWrite_cacheV (s : Cfg) (w : Conn) (v : Obj) : (ctrlWrite s w v).cacheV = none := rfl
+@[simp] theorem ctrlWrite_cache (s : Cfg) (w : Conn) (v : Obj) : (ctrlWrite s w v).cache = false := rfl
+
+theorem sendEvents_other (s : Cfg) (c c' : Conn) (h : c ≠ c') :
+    (sendEvents s c').pending c = s.pending c ∧ (sendEvents s c').timer c = s.timer c ∧
+    (sendEvents s c').knows c = s.knows c := by
+  unfold sendEvents; split <;> (try split) <;> simp [h]
+
+theorem sendEvents_self_pending (s : Cfg) (c : Conn) : (sendEvents s c).pending c = none := by
+  unfold sendEvents; split <;> (try split) <;> simp_all
+
+/-- The steps of the loop thread only consume its program. -/
+theorem stepLoop_lops_sub (fix : Bool) (s : Cfg) : ∀ op ∈ (stepLoop fix s).1.lops, op ∈ s.lops := by
+  unfold stepLoop
+  split
+  · split
+    · exact fun _ h => h
+    · rename_i op rest hl
+      have hr : ∀ o ∈ rest, o ∈ s.lops := by
+        intro o ho; rw [hl]; exact List.mem_cons_of_mem _ ho
+      cases op <;> simp only [] <;> (try split) <;> (try split) <;> simpa using hr
+  all_goals (try split) <;> simp [ret]
+
+theorem stepWorker_lops (s : Cfg) : (stepWorker s).1.lops = s.lops := by
+  unfold stepWorker
+  split
+  · split
+    · rfl
+    · split <;> rfl
+  all_goals (try split) <;> rfl
+
+theorem noWrite_step (fix b : Bool) (s : Cfg) (h : NoWrite s.lops) : NoWrite (step fix b s).lops := by
+  unfold step
+  split
+  · exact fun op ho => h op (stepLoop_lops_sub fix s op ho)
+  · rw [stepWorker_lops]; exact h
+
+theorem not_atWrite_of_noWrite (s : Cfg) (h : NoWrite s.lops) : ¬ AtWrite s := by
+  rintro ⟨_, hw⟩
+  cases hl : s.lops with
+  | nil => rw [hl] at hw; simp [headIsWrite] at hw
+  | cons op rest =>
+    cases op with
+    | write w v => exact h (.write w v) (by rw [hl]; exact List.mem_cons_self) w v rfl
+    | _ => rw [hl] at hw; simp [headIsWrite] at hw
+
+theorem serial_of_noWrite (fix : Bool) (bits : List Bool) (s : Cfg) (h : NoWrite s.lops) :
+    Serial fix bits s := by
+  induction bits generalizing s with
+  | nil => trivial
+  | cons b bs ih =>
+    exact ⟨fun _ ha => absurd ha (not_atWrite_of_noWrite s h), ih _ (noWrite_step fix b s h)⟩
+
 /-! ## 1. No stale cache -/
 
 /-- The worker has assigned `_value` and has not yet cleared the with-value cache. -/
@@ -69,7 +181,7 @@ theorem cacheInv_of_quiet_fresh (s : Cfg) (hq : Quiet s) (hf : Fresh s) : CacheI
   intro r hr
   simp_all [Quiet]
 
-/-! ## 2. Updates are not lost -/
+/-! ## 2. Updates are not lost (loop programs without controller writes) -/
 
 /-- The value the run is heading for, seen from any intermediate configuration. -/
 def target (s : Cfg) : Obj :=
@@ -77,13 +189,16 @@ def target (s : Cfg) : Obj :=
   | .wAssign o _ => lastValid o s.wups
   | _ => lastValid s.value s.wups
 
-theorem target_stepLoop (fix : Bool) (s : Cfg) : target (stepLoop fix s).1 = target s := by
+theorem target_stepLoop (fix : Bool) (s : Cfg) (hn : NoWrite s.lops) :
+    target (stepLoop fix s).1 = target s := by
   unfold stepLoop
   split
   · split
     · rfl
     · rename_i op rest hl
-      cases op <;> simp only [] <;> (try split) <;> (try split) <;> simp_all [target]
+      cases op with
+      | write w v => exact absurd rfl (hn (.write w v) (by rw [hl]; exact List.mem_cons_self) w v)
+      | _ => simp only [] <;> (try split) <;> (try split) <;> simp_all [target]
   all_goals (try split) <;> simp_all [target, ret]
 
 theorem target_stepWorker (s : Cfg) : target (stepWorker s).1 = target s := by
@@ -94,15 +209,16 @@ theorem target_stepWorker (s : Cfg) : target (stepWorker s).1 = target s := by
     · split <;> simp_all [target, lastValid]
   all_goals (try split) <;> simp_all [target] <;> (try split) <;> simp_all
 
-theorem target_run (fix : Bool) (bits : List Bool) (s : Cfg) : target (run fix bits s) = target s := by
+theorem target_run (fix : Bool) (bits : List Bool) (s : Cfg) (hn : NoWrite s.lops) :
+    target (run fix bits s) = target s := by
   induction bits generalizing s with
   | nil => rfl
   | cons b bs ih =>
     simp only [run]
-    rw [ih]
+    rw [ih _ (noWrite_step fix b s hn)]
     unfold step
     split
-    · exact target_stepLoop fix s
+    · exact target_stepLoop fix s hn
     · exact target_stepWorker s
 
 /-! ## 3. Events -/
@@ -117,26 +233,81 @@ theorem getLast?_cons_of (d : Obj) (q : List Obj) :
     | none => simp at h
     | some x => rfl
 
-theorem latest_congr (c : Conn) (base : Obj) (t s : Cfg) (hq : t.queue = s.queue)
-    (hp : t.pending c = s.pending c) (hd : t.delivered c = s.delivered c) :
-    latest c base t = latest c base s := by
-  simp only [latest, hq, hp, hd]
+theorem latest_congr (c : Conn) (t s : Cfg) (hq : t.queue = s.queue)
+    (hp : t.pending c = s.pending c) (hk : t.knows c = s.knows c) :
+    latest c t = latest c s := by
+  simp only [latest, hq, hp, hk]
 
-theorem latest_flush (c : Conn) (base : Obj) (t s : Cfg) (d : Obj) (hq : t.queue = s.queue)
-    (hd : s.pending c = some d) (hp : t.pending c = none)
-    (hdl : t.delivered c = s.delivered c ++ [d]) : latest c base t = latest c base s := by
-  simp only [latest, hq, hp, hdl, hd, List.getLast?_append, List.getLast?_singleton]
-  cases s.queue.getLast? <;> simp
+theorem latest_send_self (c : Conn) (s : Cfg) (hc : c ∈ s.subs) :
+    latest c (sendEvents s c) = latest c s := by
+  unfold sendEvents latest
+  cases hp : s.pending c with
+  | none => simp [hp]
+  | some d => simp [hp, hc]
 
-theorem latest_pop (c : Conn) (base : Obj) (t s : Cfg) (d : Obj) (q : List Obj)
+theorem latest_pop (c : Conn) (t s : Cfg) (d : Obj) (q : List Obj)
     (hs : s.queue = d :: q) (hq : t.queue = q) (hp : t.pending c = some d) :
-    latest c base t = latest c base s := by
+    latest c t = latest c s := by
   simp only [latest, hs, hq, hp, getLast?_cons_of]
   cases q.getLast? <;> rfl
 
-theorem latest_push (c : Conn) (base : Obj) (t s : Cfg) (d : Obj) (hq : t.queue = s.queue ++ [d]) :
-    latest c base t = d := by
+theorem latest_push (c : Conn) (t s : Cfg) (d : Obj) (hq : t.queue = s.queue ++ [d]) :
+    latest c t = d := by
   simp [latest, hq]
+
+/-- After a serialised controller write the pipeline of a subscriber ends in the written value:
+    another connection's write is queued for it, its own write it knows. -/
+theorem latest_ctrlWrite (c w : Conn) (v : Obj) (s : Cfg) (hq : s.queue = []) (hc : c ∈ s.subs)
+    (h : (latest c s).val = s.value.val) : (latest c (ctrlWrite s w v)).val = v.val := by
+  simp only [latest, hq, List.getLast?_nil] at h
+  simp only [latest, ctrlWrite_queue, hq, List.getLast?_nil]
+  by_cases hch : s.value.val = v.val
+  · -- unchanged: nothing is pushed
+    by_cases hcw : c = w
+    · subst hcw
+      cases hp : s.pending c with
+      | none => simp [ctrlWrite, hch, hp]
+      | some d =>
+        by_cases hd : d.val = v.val <;> simp [ctrlWrite, hch, hp, hd]
+    · cases hp : s.pending c with
+      | none => rw [hp] at h; simp [ctrlWrite, hch, hp, hcw]; rw [← hch]; exact h
+      | some d => rw [hp] at h; simp [ctrlWrite, hch, hp, hcw]; rw [← hch]; exact h
+  · by_cases hcw : c = w
+    · subst hcw
+      cases hp : s.pending c with
+      | none => simp [ctrlWrite, hch, hp]
+      | some d =>
+        by_cases hd : d.val = v.val <;> simp [ctrlWrite, hch, hp, hd]
+    · simp [ctrlWrite, hch, hc, hcw]
+
+/-- A queued entry keeps having a scheduled flush across a controller write. -/
+theorem pt_ctrlWrite (c w : Conn) (v : Obj) (s : Cfg)
+    (h : s.pending c ≠ none → s.timer c = true) :
+    (ctrlWrite s w v).pending c ≠ none → (ctrlWrite s w v).timer c = true := by
+  by_cases hch : s.value.val = v.val
+  · -- nothing is pushed
+    by_cases hcw : c = w
+    · subst hcw
+      intro hne
+      have : s.pending c ≠ none := by
+        intro hn; apply hne; simp [ctrlWrite, hch, hn]
+      simpa [ctrlWrite, hch] using h this
+    · intro hne
+      have : s.pending c ≠ none := by
+        intro hn; apply hne; simp [ctrlWrite, hch, hcw, hn]
+      simpa [ctrlWrite, hch] using h this
+  · by_cases hcw : c = w
+    · subst hcw
+      intro hne
+      have : s.pending c ≠ none := by
+        intro hn; apply hne; simp [ctrlWrite, hn]
+      simpa [ctrlWrite] using h this
+    · by_cases hc : c ∈ s.subs
+      · intro _; simp [ctrlWrite, hch, hc, hcw]
+      · intro hne
+        have : s.pending c ≠ none := by
+          intro hn; apply hne; simp [ctrlWrite, hc, hcw, hn]
+        simpa [ctrlWrite, hc] using h this
 
 /-- What must hold of connection `c`'s pipeline, depending on where the worker is. -/
 def WClause (w : WPc) (v lat : Obj) : Prop :=
@@ -148,88 +319,95 @@ def WClause (w : WPc) (v lat : Obj) : Prop :=
   | .wTopic d => d = v
   | .wEnq d => d = v
 
-/-- Invariant for a connection `c` that stays subscribed: its pipeline ends in the current value,
-    or the worker is inside an update that will still enqueue it. -/
-def EvInv (c : Conn) (base : Obj) (s : Cfg) : Prop :=
+/-- Invariant for a connection `c` that stays subscribed: a queued entry always has a scheduled
+    flush, and its pipeline ends in the current value or the worker is inside an update that will
+    still enqueue it. -/
+def EvInv (c : Conn) (s : Cfg) : Prop :=
   s.topicKey = true ∧ c ∈ s.subs ∧ (∀ op ∈ s.lops, op ≠ LoopOp.unsub c) ∧
-  s.lpc ≠ .uKey ∧ (∀ c', s.lpc ≠ .sKey c') ∧ WClause s.wpc s.value (latest c base s)
+  s.lpc ≠ .uKey ∧ (∀ c', s.lpc ≠ .sKey c') ∧
+  (s.pending c ≠ none → s.timer c = true) ∧
+  WClause s.wpc s.value (latest c s)
 
-theorem evInv_frame (c : Conn) (base : Obj) (s t : Cfg) (h : EvInv c base s)
+theorem evInv_frame (c : Conn) (s t : Cfg) (h : EvInv c s)
     (hk : t.topicKey = true) (hs : c ∈ t.subs) (hl : ∀ op ∈ t.lops, op ∈ s.lops)
     (hp1 : t.lpc ≠ .uKey) (hp2 : ∀ c', t.lpc ≠ .sKey c')
+    (hpt : t.pending c ≠ none → t.timer c = true)
     (hw : t.wpc = s.wpc) (hv : t.value = s.value)
-    (hlat : latest c base t = latest c base s) : EvInv c base t := by
-  obtain ⟨_, _, a3, _, _, a6⟩ := h
-  refine ⟨hk, hs, fun op ho => a3 op (hl op ho), hp1, hp2, ?_⟩
+    (hlat : latest c t = latest c s) : EvInv c t := by
+  obtain ⟨_, _, a3, _, _, _, a7⟩ := h
+  refine ⟨hk, hs, fun op ho => a3 op (hl op ho), hp1, hp2, hpt, ?_⟩
   rw [hw, hlat, hv]
-  exact a6
+  exact a7
 
-theorem evInv_stepWorker (c : Conn) (base : Obj) (s : Cfg) (h : EvInv c base s) :
-    EvInv c base (stepWorker s).1 := by
-  obtain ⟨a1, a2, a3, a4, a5, a6⟩ := h
+theorem evInv_stepWorker (c : Conn) (s : Cfg) (h : EvInv c s) :
+    EvInv c (stepWorker s).1 := by
+  obtain ⟨a1, a2, a3, a4, a5, a6, a7⟩ := h
   unfold stepWorker
   split
   · -- idle
     rename_i hw
-    rw [hw] at a6
+    rw [hw] at a7
     split
-    · refine ⟨a1, a2, a3, a4, a5, ?_⟩
-      rw [hw]; exact a6
+    · refine ⟨a1, a2, a3, a4, a5, a6, ?_⟩
+      rw [hw]; exact a7
     · split
-      · refine ⟨a1, a2, a3, a4, a5, ?_⟩
-        exact ⟨a6, rfl⟩
-      · refine ⟨a1, a2, a3, a4, a5, ?_⟩
+      · refine ⟨a1, a2, a3, a4, a5, a6, ?_⟩
+        exact ⟨a7, rfl⟩
+      · refine ⟨a1, a2, a3, a4, a5, a6, ?_⟩
         show WClause s.wpc _ _
-        rw [hw]; exact a6
+        rw [hw]; exact a7
   · -- wAssign
     rename_i o ch hw
-    refine ⟨a1, a2, a3, a4, a5, ?_⟩
-    rw [hw] at a6
-    obtain ⟨b1, b2⟩ := a6
+    refine ⟨a1, a2, a3, a4, a5, a6, ?_⟩
+    rw [hw] at a7
+    obtain ⟨b1, b2⟩ := a7
     refine ⟨rfl, ?_⟩
     intro hch
     subst hch
     have hv : s.value.val = o.val := by
       have := b2.symm
       simpa using this
-    show (latest c base s).val = o.val
+    show (latest c s).val = o.val
     rw [b1, hv]
   · -- wClear0
     rename_i o ch hw
-    refine ⟨a1, a2, a3, a4, a5, ?_⟩
-    rw [hw] at a6
-    exact a6
+    refine ⟨a1, a2, a3, a4, a5, a6, ?_⟩
+    rw [hw] at a7
+    exact a7
   · -- wClear1
     rename_i o ch hw
-    refine ⟨a1, a2, a3, a4, a5, ?_⟩
-    rw [hw] at a6
-    obtain ⟨b1, b2⟩ := a6
+    refine ⟨a1, a2, a3, a4, a5, a6, ?_⟩
+    rw [hw] at a7
+    obtain ⟨b1, b2⟩ := a7
     cases ch with
     | true => exact b1.symm
     | false => exact b2 rfl
   · -- wTopic
     rename_i d hw
-    rw [hw] at a6
+    rw [hw] at a7
     split
-    · exact ⟨a1, a2, a3, a4, a5, a6⟩
+    · exact ⟨a1, a2, a3, a4, a5, a6, a7⟩
     · rename_i hk; exact absurd a1 hk
   · -- wEnq
     rename_i d hw
-    rw [hw] at a6
-    refine ⟨a1, a2, a3, a4, a5, ?_⟩
-    show (latest c base _).val = s.value.val
-    rw [latest_push c base _ s d rfl, a6]
+    rw [hw] at a7
+    refine ⟨a1, a2, a3, a4, a5, a6, ?_⟩
+    show (latest c _).val = s.value.val
+    rw [latest_push c _ s d rfl, a7]
 
-theorem evInv_stepLoop (fix : Bool) (c : Conn) (base : Obj) (s : Cfg) (h : EvInv c base s) :
-    EvInv c base (stepLoop fix s).1 := by
+theorem evInv_stepLoop (fix : Bool) (c : Conn) (s : Cfg) (h : EvInv c s)
+    (hg : AtWrite s → s.wpc = .idle ∧ s.queue = []) :
+    EvInv c (stepLoop fix s).1 := by
   have h0 := h
-  obtain ⟨a1, a2, a3, a4, a5, a6⟩ := h
+  obtain ⟨a1, a2, a3, a4, a5, a6, a7⟩ := h
   have keep : ∀ t : Cfg, t.topicKey = s.topicKey → t.subs = s.subs → t.lops = s.lops →
       t.lpc ≠ .uKey → (∀ c', t.lpc ≠ .sKey c') → t.wpc = s.wpc → t.value = s.value →
-      t.queue = s.queue → t.pending = s.pending → t.delivered = s.delivered → EvInv c base t := by
-    intro t hk hs hl hp1 hp2 hw hv hq hp hd
-    exact evInv_frame c base s t h0 (hk ▸ a1) (hs ▸ a2) (fun op ho => hl ▸ ho) hp1 hp2 hw hv
-      (latest_congr c base t s hq (by rw [hp]) (by rw [hd]))
+      t.queue = s.queue → t.pending = s.pending → t.timer = s.timer → t.knows = s.knows →
+      EvInv c t := by
+    intro t hk hs hl hp1 hp2 hw hv hq hp ht hkn
+    exact evInv_frame c s t h0 (hk ▸ a1) (hs ▸ a2) (fun op ho => hl ▸ ho) hp1 hp2
+      (by rw [hp, ht]; exact a6) hw hv
+      (latest_congr c t s hq (by rw [hp]) (by rw [hkn]))
   unfold stepLoop
   split
   · -- idle: begin the next operation
@@ -239,16 +417,15 @@ theorem evInv_stepLoop (fix : Bool) (c : Conn) (base : Obj) (s : Cfg) (h : EvInv
     · rename_i op rest hl
       have hrest : ∀ o ∈ rest, o ∈ s.lops := by
         intro o ho; rw [hl]; exact List.mem_cons_of_mem _ ho
-      have b4 : s.lpc ≠ .uKey := a4
       cases op with
-      | toHAP => exact evInv_frame c base s _ h0 a1 a2 hrest (by simp) (by simp) rfl rfl rfl
-      | toHAPnv => exact evInv_frame c base s _ h0 a1 a2 hrest (by simp) (by simp) rfl rfl rfl
-      | getValue => exact evInv_frame c base s _ h0 a1 a2 hrest (by simp) (by simp) rfl rfl rfl
-      | drain => exact evInv_frame c base s _ h0 a1 a2 hrest (by simp) (by simp) rfl rfl rfl
+      | toHAP => exact evInv_frame c s _ h0 a1 a2 hrest (by simp) (by simp) a6 rfl rfl rfl
+      | toHAPnv => exact evInv_frame c s _ h0 a1 a2 hrest (by simp) (by simp) a6 rfl rfl rfl
+      | getValue => exact evInv_frame c s _ h0 a1 a2 hrest (by simp) (by simp) a6 rfl rfl rfl
+      | drain => exact evInv_frame c s _ h0 a1 a2 hrest (by simp) (by simp) a6 rfl rfl rfl
       | sub c' =>
         simp only []
         split
-        · refine evInv_frame c base s _ h0 a1 ?_ hrest a4 a5 rfl rfl rfl
+        · refine evInv_frame c s _ h0 a1 ?_ hrest a4 a5 a6 rfl rfl rfl
           show c ∈ addConn s.subs c'
           unfold addConn; split
           · exact a2
@@ -258,6 +435,7 @@ theorem evInv_stepLoop (fix : Bool) (c : Conn) (base : Obj) (s : Cfg) (h : EvInv
         have hne : c' ≠ c := by
           intro e; subst e
           exact a3 (.unsub c') (by rw [hl]; exact List.mem_cons_self) rfl
+        have hcc' : c ≠ c' := fun e => hne e.symm
         have hmem : c ∈ s.subs.erase c' := (List.mem_erase_of_ne (Ne.symm hne)).mpr a2
         have hnon : (s.subs.erase c').isEmpty = false := by
           cases hh : s.subs.erase c' with
@@ -266,41 +444,75 @@ theorem evInv_stepLoop (fix : Bool) (c : Conn) (base : Obj) (s : Cfg) (h : EvInv
         simp only []
         split
         · split
-          · rename_i he; rw [hnon] at he; exact absurd he (by simp)
-          · exact evInv_frame c base s _ h0 a1 hmem hrest a4 a5 rfl rfl rfl
+          · rename_i he
+            have he' : (s.subs.erase c').isEmpty = true := he
+            rw [hnon] at he'; exact absurd he' (by simp)
+          · exact evInv_frame c s _ h0 a1 hmem hrest a4 a5 (by simpa [hcc'] using a6) rfl rfl
+              (latest_congr c _ s rfl (by simp [hcc']) rfl)
         · rename_i hk; exact absurd a1 hk
       | flush c' =>
         simp only []
+        by_cases hcc : c' = c
+        · subst hcc
+          exact evInv_frame c' s _ h0 (by simpa using a1) (by simpa using a2)
+            (by simpa using hrest) (by simpa using a4) (by simpa using a5)
+            (by intro hne; exact absurd (sendEvents_self_pending _ c') hne)
+            (by simp) (by simp)
+            (by
+              have := latest_send_self c' { s with lops := rest } a2
+              rw [this]; rfl)
+        · have hcc' : c ≠ c' := fun e => hcc e.symm
+          obtain ⟨e1, e2, e3⟩ := sendEvents_other { s with lops := rest } c c' hcc'
+          exact evInv_frame c s _ h0 (by simpa using a1) (by simpa using a2)
+            (by simpa using hrest) (by simpa using a4) (by simpa using a5)
+            (by rw [e1, e2]; exact a6) (by simp) (by simp)
+            (latest_congr c _ s (by simp) e1 e3)
+      | fire c' =>
+        simp only []
         split
-        · exact evInv_frame c base s _ h0 a1 a2 hrest a4 a5 rfl rfl rfl
-        · rename_i d hd
-          by_cases hcc : c' = c
+        · by_cases hcc : c' = c
           · subst hcc
-            split
-            · exact evInv_frame c' base s _ h0 a1 a2 hrest a4 a5 rfl rfl
-                (latest_flush c' base _ s d rfl hd (by simp) (by simp))
-            · rename_i hm; exact absurd a2 hm
+            exact evInv_frame c' s _ h0 (by simpa using a1) (by simpa using a2)
+              (by simpa using hrest) (by simpa using a4) (by simpa using a5)
+              (by intro hne; exact absurd (sendEvents_self_pending _ c') hne)
+              (by simp) (by simp)
+              (by
+                have := latest_send_self c' { s with lops := rest } a2
+                rw [this]; rfl)
           · have hcc' : c ≠ c' := fun e => hcc e.symm
-            split
-            · exact evInv_frame c base s _ h0 a1 a2 hrest a4 a5 rfl rfl
-                (latest_congr c base _ s rfl (by simp [hcc']) (by simp [hcc']))
-            · exact evInv_frame c base s _ h0 a1 a2 hrest a4 a5 rfl rfl
-                (latest_congr c base _ s rfl (by simp [hcc']) rfl)
+            obtain ⟨e1, e2, e3⟩ := sendEvents_other { s with lops := rest } c c' hcc'
+            exact evInv_frame c s _ h0 (by simpa using a1) (by simpa using a2)
+              (by simpa using hrest) (by simpa using a4) (by simpa using a5)
+              (by rw [e1, e2]; exact a6) (by simp) (by simp)
+              (latest_congr c _ s (by simp) e1 e3)
+        · exact evInv_frame c s _ h0 a1 a2 hrest a4 a5 a6 rfl rfl rfl
+      | write w v =>
+        simp only []
+        obtain ⟨gw, gq⟩ := hg ⟨hpc, by rw [hl]; rfl⟩
+        rw [gw] at a7
+        refine ⟨by simpa using a1, by simpa using a2, ?_, by simpa using a4, by simpa using a5, ?_, ?_⟩
+        · intro op ho; exact a3 op (hrest op (by simpa using ho))
+        · exact pt_ctrlWrite c w v { s with lops := rest } a6
+        · show WClause (ctrlWrite _ w v).wpc _ _
+          rw [ctrlWrite_wpc]
+          show WClause s.wpc _ _
+          rw [gw]
+          exact latest_ctrlWrite c w v { s with lops := rest } gq a2 a7
   · -- hCheck
-    split <;> exact keep _ rfl rfl rfl (by simp) (by simp) rfl rfl rfl rfl rfl
-  · exact keep _ rfl rfl rfl (by simp [ret]) (by simp [ret]) rfl rfl rfl rfl rfl
-  · exact keep _ rfl rfl rfl (by simp) (by simp) rfl rfl rfl rfl rfl
+    split <;> exact keep _ rfl rfl rfl (by simp) (by simp) rfl rfl rfl rfl rfl rfl
+  · exact keep _ rfl rfl rfl (by simp [ret]) (by simp [ret]) rfl rfl rfl rfl rfl rfl
+  · exact keep _ rfl rfl rfl (by simp) (by simp) rfl rfl rfl rfl rfl rfl
   · split
-    · exact keep _ rfl rfl rfl (by simp) (by simp) rfl rfl rfl rfl rfl
-    · exact keep _ rfl rfl rfl (by simp [ret]) (by simp [ret]) rfl rfl rfl rfl rfl
+    · exact keep _ rfl rfl rfl (by simp) (by simp) rfl rfl rfl rfl rfl rfl
+    · exact keep _ rfl rfl rfl (by simp [ret]) (by simp [ret]) rfl rfl rfl rfl rfl rfl
   · split
-    · exact keep _ rfl rfl rfl (by simp [ret]) (by simp [ret]) rfl rfl rfl rfl rfl
-    · exact keep _ rfl rfl rfl (by simp) (by simp) rfl rfl rfl rfl rfl
-  · exact keep _ rfl rfl rfl (by simp [ret]) (by simp [ret]) rfl rfl rfl rfl rfl
-  · split <;> exact keep _ rfl rfl rfl (by simp) (by simp) rfl rfl rfl rfl rfl
-  · exact keep _ rfl rfl rfl (by simp [ret]) (by simp [ret]) rfl rfl rfl rfl rfl
-  · exact keep _ rfl rfl rfl (by simp [ret]) (by simp [ret]) rfl rfl rfl rfl rfl
-  · exact keep _ rfl rfl rfl (by simp [ret]) (by simp [ret]) rfl rfl rfl rfl rfl
+    · exact keep _ rfl rfl rfl (by simp [ret]) (by simp [ret]) rfl rfl rfl rfl rfl rfl
+    · exact keep _ rfl rfl rfl (by simp) (by simp) rfl rfl rfl rfl rfl rfl
+  · exact keep _ rfl rfl rfl (by simp [ret]) (by simp [ret]) rfl rfl rfl rfl rfl rfl
+  · split <;> exact keep _ rfl rfl rfl (by simp) (by simp) rfl rfl rfl rfl rfl rfl
+  · exact keep _ rfl rfl rfl (by simp [ret]) (by simp [ret]) rfl rfl rfl rfl rfl rfl
+  · exact keep _ rfl rfl rfl (by simp [ret]) (by simp [ret]) rfl rfl rfl rfl rfl rfl
+  · exact keep _ rfl rfl rfl (by simp [ret]) (by simp [ret]) rfl rfl rfl rfl rfl rfl
   · -- sKey: impossible
     rename_i c' hpc
     exact absurd hpc (a5 c')
@@ -310,23 +522,26 @@ theorem evInv_stepLoop (fix : Bool) (c : Conn) (base : Obj) (s : Cfg) (h : EvInv
   · -- dLoop
     rename_i hpc
     split
-    · exact keep _ rfl rfl rfl (by simp) (by simp) rfl rfl rfl rfl rfl
+    · exact keep _ rfl rfl rfl (by simp) (by simp) rfl rfl rfl rfl rfl rfl
     · rename_i d q hq
-      exact evInv_frame c base s _ h0 a1 a2 (fun _ h => h) a4 a5 rfl rfl
-        (latest_pop c base _ s d q hq rfl (by simp [a2]))
+      exact evInv_frame c s _ h0 a1 a2 (fun _ h => h) a4 a5 (by simp [a2]) rfl rfl
+        (latest_pop c _ s d q hq rfl (by simp [a2]))
 
-theorem evInv_run (fix : Bool) (c : Conn) (base : Obj) (bits : List Bool) (s : Cfg)
-    (h : EvInv c base s) : EvInv c base (run fix bits s) := by
+theorem evInv_run (fix : Bool) (c : Conn) (bits : List Bool) (s : Cfg)
+    (h : EvInv c s) (hs : Serial fix bits s) : EvInv c (run fix bits s) := by
   induction bits generalizing s with
   | nil => exact h
   | cons b bs ih =>
-    apply ih
+    obtain ⟨hg, hrest⟩ := hs
+    apply ih _ _ hrest
     unfold step
     split
-    · exact evInv_stepLoop fix c base s h
-    · exact evInv_stepWorker c base s h
+    · rename_i hb
+      exact evInv_stepLoop fix c s h (hg hb)
+    · exact evInv_stepWorker c s h
 
-/-! ## 4. Exactly the changing updates are handed to the loop, in order -/
+/-! ## 4. Exactly the changing updates are handed to the loop, in order
+       (loop programs without controller writes) -/
 
 /-- What the worker still owes, seen from an intermediate configuration. -/
 def owed (s : Cfg) : List Obj :=
@@ -338,23 +553,25 @@ def owed (s : Cfg) : List Obj :=
   | .wTopic d => [d] ++ changes d s.wups
   | .wEnq d => [d] ++ changes d s.wups
 
-theorem owed_stepLoop (fix : Bool) (s : Cfg) :
+theorem owed_stepLoop (fix : Bool) (s : Cfg) (hn : NoWrite s.lops) :
     (stepLoop fix s).1.enq = s.enq ∧ owed (stepLoop fix s).1 = owed s := by
   unfold stepLoop
   split
   · split
     · exact ⟨rfl, rfl⟩
     · rename_i op rest hl
-      cases op <;> simp only [] <;> (try split) <;> (try split) <;> simp_all [owed]
+      cases op with
+      | write w v => exact absurd rfl (hn (.write w v) (by rw [hl]; exact List.mem_cons_self) w v)
+      | _ => simp only [] <;> (try split) <;> (try split) <;> simp_all [owed]
   all_goals (try split) <;> simp_all [owed, ret]
 
-theorem owed_stepWorker (c : Conn) (base : Obj) (s : Cfg) (h : EvInv c base s) :
+theorem owed_stepWorker (c : Conn) (s : Cfg) (h : EvInv c s) :
     (stepWorker s).1.enq ++ owed (stepWorker s).1 = s.enq ++ owed s := by
-  obtain ⟨a1, _, _, _, _, a6⟩ := h
+  obtain ⟨a1, _, _, _, _, _, a7⟩ := h
   unfold stepWorker
   split
   · rename_i hw
-    rw [hw] at a6
+    rw [hw] at a7
     split
     · rfl
     · rename_i u rest hl
@@ -368,34 +585,97 @@ theorem owed_stepWorker (c : Conn) (base : Obj) (s : Cfg) (h : EvInv c base s) :
   · rename_i o ch hw
     simp [owed, hw]
   · rename_i o ch hw
-    rw [hw] at a6
-    have hv : s.value = o := a6.1
+    rw [hw] at a7
+    have hv : s.value = o := a7.1
     cases ch <;> simp [owed, hw, hv]
   · rename_i d hw
     split
     · simp [owed, hw]
     · rename_i hk; exact absurd a1 hk
   · rename_i d hw
-    rw [hw] at a6
-    have hv : d = s.value := a6
+    rw [hw] at a7
+    have hv : d = s.value := a7
     simp [owed, hw, hv]
 
-theorem handoff_run (fix : Bool) (c : Conn) (base : Obj) (bits : List Bool) (s : Cfg)
-    (h : EvInv c base s) :
+theorem handoff_run (fix : Bool) (c : Conn) (bits : List Bool) (s : Cfg)
+    (h : EvInv c s) (hn : NoWrite s.lops) :
     (run fix bits s).enq ++ owed (run fix bits s) = s.enq ++ owed s := by
   induction bits generalizing s with
   | nil => rfl
   | cons b bs ih =>
     simp only [run]
-    have hstep : EvInv c base (step fix b s) := by
+    have hstep : EvInv c (step fix b s) := by
       unfold step; split
-      · exact evInv_stepLoop fix c base s h
-      · exact evInv_stepWorker c base s h
-    rw [ih _ hstep]
+      · exact evInv_stepLoop fix c s h (fun ha => absurd ha (not_atWrite_of_noWrite s hn))
+      · exact evInv_stepWorker c s h
+    rw [ih _ hstep (noWrite_step fix b s hn)]
     unfold step
     split
-    · obtain ⟨e1, e2⟩ := owed_stepLoop fix s
+    · obtain ⟨e1, e2⟩ := owed_stepLoop fix s hn
       rw [e1, e2]
-    · exact owed_stepWorker c base s h
+    · exact owed_stepWorker c s h
+
+/-! ## 5. The ghost `knows` is the last event written, unless the connection wrote itself -/
+
+def KnowsInv (c : Conn) (k0 : Obj) (s : Cfg) : Prop :=
+  s.knows c = ((s.delivered c).getLast?).getD k0
+
+theorem sendEvents_knows (c c' : Conn) (k0 : Obj) (s : Cfg) (h : KnowsInv c k0 s) :
+    KnowsInv c k0 (sendEvents s c') := by
+  unfold KnowsInv at *
+  unfold sendEvents
+  split
+  · exact h
+  · split
+    · by_cases hcc : c = c'
+      · subst hcc; simp
+      · simp [hcc, h]
+    · exact h
+
+theorem knows_stepLoop (fix : Bool) (c : Conn) (k0 : Obj) (s : Cfg)
+    (hn : ∀ op ∈ s.lops, ∀ v, op ≠ LoopOp.write c v) (h : KnowsInv c k0 s) :
+    KnowsInv c k0 (stepLoop fix s).1 := by
+  unfold stepLoop
+  split
+  · split
+    · exact h
+    · rename_i op rest hl
+      cases op with
+      | flush c' => exact sendEvents_knows c c' k0 _ h
+      | fire c' =>
+        simp only []
+        split
+        · exact sendEvents_knows c c' k0 _ h
+        · exact h
+      | write w v =>
+        have hw : c ≠ w := by
+          intro e; subst e
+          exact hn (.write c v) (by rw [hl]; exact List.mem_cons_self) v rfl
+        simpa [KnowsInv, ctrlWrite, hw] using h
+      | _ => simp only [] <;> (try split) <;> (try split) <;> exact h
+  all_goals (try split) <;> exact h
+
+theorem knows_stepWorker (c : Conn) (k0 : Obj) (s : Cfg) (h : KnowsInv c k0 s) :
+    KnowsInv c k0 (stepWorker s).1 := by
+  unfold stepWorker
+  split
+  · split
+    · exact h
+    · split <;> exact h
+  all_goals (try split) <;> exact h
+
+theorem knows_run (fix : Bool) (c : Conn) (k0 : Obj) (bits : List Bool) (s : Cfg)
+    (hn : ∀ op ∈ s.lops, ∀ v, op ≠ LoopOp.write c v) (h : KnowsInv c k0 s) :
+    KnowsInv c k0 (run fix bits s) := by
+  induction bits generalizing s with
+  | nil => exact h
+  | cons b bs ih =>
+    apply ih
+    · unfold step; split
+      · exact fun op ho => hn op (stepLoop_lops_sub fix s op ho)
+      · rw [stepWorker_lops]; exact hn
+    · unfold step; split
+      · exact knows_stepLoop fix c k0 s hn h
+      · exact knows_stepWorker c k0 s h
 
 end Hap.Race
